@@ -627,17 +627,21 @@ impl Printf {
                     justify,
                 } => match format_directive(file_info, directive, starting_point) {
                     Ok(content) => {
-                        if let Some(width) = width {
-                            match justify {
-                                Justify::Left => {
-                                    write!(out, "{content:<width$}").unwrap();
-                                }
-                                Justify::Right => {
-                                    write!(out, "{content:>width$}").unwrap();
-                                }
+                        // Pad by hand: the formatting machinery panics for
+                        // widths that do not fit in 16 bits.
+                        let fill =
+                            width.map_or(0, |width| width.saturating_sub(content.chars().count()));
+                        let pad = |out: &mut dyn Write| {
+                            for _ in 0..fill {
+                                out.write_all(b" ").unwrap();
                             }
-                        } else {
-                            write!(out, "{content}").unwrap();
+                        };
+                        if *justify == Justify::Right {
+                            pad(&mut out);
+                        }
+                        write!(out, "{content}").unwrap();
+                        if *justify == Justify::Left {
+                            pad(&mut out);
                         }
                     }
                     Err(e) => {
